@@ -1,7 +1,10 @@
 (* Executable model of the lowering of forms to kernels (C06), arm for arm after
-     sympde/expr/expr.py        Integral.__new__, IntAdd.__new__, Functional/LinearForm/BilinearForm (_get_domain)
+     sympde/expr/expr.py        Integral.__new__, IntAdd.__new__, the operators of Integral / IntAdd
+                                (__mul__ __rmul__ __div__ __rdiv__ __neg__ __add__ __radd__, add_int / Expr.__sub__),
+                                Functional/LinearForm/BilinearForm (_get_domain)
      sympde/expr/evaluation.py  _unpack_functions, _get_trials_tests, _to_matrix_form,
-                                TerminalExpr.eval (BasicForm arm), KernelExpression
+                                TerminalExpr.eval (BasicForm arm: on constructed forms [lower_form], on any form
+                                object [lower_rform]), KernelExpression
    Integrands are terminal scalar expressions ([texpr]): the lowering of the integrand itself
    (TerminalExpr on expressions) is C01's subject and is taken from the implementation.
    The scalar components of the test / trial functions are the field atoms
@@ -170,6 +173,24 @@ Section Dict.
     match d with [] => [] | (k', v) :: r => if keqb k k' then r else (k', v) :: dict_del k r end.
 End Dict.
 
+(* ------------------------------------------------------ scalar arithmetic on integrands *)
+(* what an arithmetic operator of Integral / IntAdd does to every integrand *)
+Inductive wrap :=
+| WMulL (c : texpr)      (* c * I : Integral.__rmul__ builds expr*o; sympy's product is commutative *)
+| WMulR (c : texpr)      (* I * c *)
+| WDiv (c : texpr)       (* I / c *)
+| WRDiv (c : texpr)      (* c / I : __rdiv__ is written like __div__, the result is I / c *)
+| WNeg.                  (* - I *)
+Definition wapp (w : wrap) (e : texpr) : texpr :=
+  match w with
+  | WMulL c => TMul c e
+  | WMulR c => TMul e c
+  | WDiv c | WRDiv c => TDiv e c
+  | WNeg => TOpp e
+  end.
+(* the operators met on the way from the root of the tree to an integral, outermost first *)
+Definition wapps (ws : list wrap) (e : texpr) : texpr := fold_right wapp e ws.
+
 (* --------------------------------------------------- Integral / IntAdd / form objects *)
 Section Lower.
   (* `x == 0` on a sympy expression: what sympy's automatic evaluation reduced to the number 0 *)
@@ -193,13 +214,36 @@ Section Lower.
     | DDomain ps => intadd (map (fun p => (RPatch p, e)) ps)
     end.
 
-  (* what the user writes: integral(d, e) and + *)
-  Inductive iexpr := IInt (d : dom) (e : texpr) | IAdd (a b : iexpr).
+  (* what the user writes: integral(d, e), the number 0, +, and the scalar arithmetic of integrals.
+     Every operator of Integral / IntAdd rebuilds the integrals with the new integrands and re-groups them:
+       c * I, I * c    Integral.__mul__ / __rmul__ : Integral(expr*o, domain);  IntAdd.__mul__ / __rmul__ : IntAdd( *[a*o ..])
+       I / c           Integral.__div__ : Integral(expr/o, domain);             IntAdd.__div__ : IntAdd( *[a/o ..])
+       c / I           Integral.__rdiv__ / IntAdd.__rdiv__ : the code computes  I / c  as well (sic)
+       - I             Integral.__neg__ : Integral(-expr, domain);  -IntAdd = Add( *[-a ..]) -> add_int -> IntAdd
+       a - b           Expr.__sub__ : Add(a, -b) -> add_int -> IntAdd
+       0 + I, I + 0    Integral.__radd__ / __add__ : `return self`; sum([..]) starts from the number 0 *)
+  Inductive iexpr :=
+  | IInt (d : dom) (e : texpr)
+  | IAdd (a b : iexpr)
+  | IZero
+  | IWrap (w : wrap) (x : iexpr).
+
+  Definition ISub (a b : iexpr) : iexpr := IAdd a (IWrap WNeg b).
+  (* Python's sum([x1; ..; xn]) = ((0 + x1) + ..) + xn *)
+  Definition ISum (l : list iexpr) : iexpr := fold_left IAdd l IZero.
+
+  (* a * o / a / o / -a for every Integral a of the list, then IntAdd (an Integral whose new integrand is 0 is the
+     number 0 and is dropped; a single remaining Integral is returned as such) *)
+  Definition iwrap (w : wrap) (l : list iterm) : list iterm :=
+    intadd (map (fun t => (fst t, wapp w (snd t))) l).
 
   Fixpoint ieval (x : iexpr) : list iterm :=
     match x with
     | IInt d e => integral d e
-    | IAdd a b => intadd (ieval a ++ ieval b)       (* Integral.__add__ / IntAdd flattening *)
+    | IAdd a b => intadd (ieval a ++ ieval b)       (* Integral.__add__ / IntAdd flattening; with [] (the number 0) this
+                                                       is `return self` up to the order of the arguments *)
+    | IZero => []
+    | IWrap w a => iwrap w (ieval a)
     end.
 
   (* a form object: its kind, its `domain` property (members), the args of its expr *)
@@ -327,10 +371,98 @@ Section Lower.
   Definition lower_functional (d : dom) (e : texpr) : lowered :=
     match lower_form (mk_functional d e) with Some ks => LKernels ks | None => LUnmodelled end.
 
+  (* --------------------------------- TerminalExpr.eval on a form object with non-atomic domain entries *)
+  (* The constructors (Integral.__new__, Functional.__new__, _get_domain) only ever produce form objects whose `domain`
+     lists InteriorDomains / Boundaries / Interfaces, so that every key of d_new is atomic and the block "treating
+     subdomains" is the identity ([lower_form] above, distribute_atomic).  The BasicForm arm itself is written for more
+     general objects: an entry of `expr.domain` may be a Domain, whose `interior` is an InteriorDomain or a Union of
+     them; the kernel is then keyed by that interior and a Union key is handed to its members, accumulating into a
+     kernel that is already there.  [rform] is such an object: its domain entries are [dom]s. *)
+  Record rform := mkRForm { rf_kind : fkind; rf_domain : list dom; rf_expr : list iterm }.
+
+  Definition rd_add (k : dom) (e : texpr) (d : list (dom * option texpr)) :=
+    dict_upd dom_eqb k
+      (fun old => match old with
+                  | None | Some None => Some e
+                  | Some (Some x) => let s := TAdd x e in if isz s then None else Some s
+                  end) d.
+  Definition rd_set (k : dom) (e : option texpr) (d : list (dom * option texpr)) :=
+    dict_upd dom_eqb k (fun _ => e) d.
+
+  Definition rd_expr_of (f : rform) : list (dom * option texpr) :=
+    let d0 := map (fun k => (k, @None texpr)) (rf_domain f) in    (* expr.domain is a Union: no repetitions *)
+    match rf_expr f with
+    | (_ :: _ :: _) as args =>
+        fold_left (fun d a => rd_add (DReg (fst a)) (snd a) d) args d0
+    | single =>
+        let e := match single with [(_, e)] => Some e | _ => None end in
+        let doms := match rf_kind f, single with
+                    | KFunctional, _ => rf_domain f
+                    | _, [(r, _)] => [DReg r]
+                    | _, _ => []
+                    end in
+        fold_left (fun d k => rd_set k e d) doms d0
+    end.
+
+  Definition key_iface (k : dom) : bool := match k with DReg r => is_iface r | _ => false end.
+
+  (* d_new[domain.interior] = _to_matrix_form(..): a plain assignment; None = a key without `interior` *)
+  Definition rd_new_step (trials tests : list comp) (acc : option (list (dom * matrix))) (kv : dom * option texpr) :=
+    match acc, snd kv with
+    | None, _ => None
+    | Some d, None => Some d
+    | Some d, Some a =>
+        if isz a then Some d else
+        match interior_of (fst kv) with
+        | Some k' => Some (dict_upd dom_eqb k' (fun _ => to_matrix_form false trials tests a) d)
+        | None => None
+        end
+    end.
+  Definition rd_new_of (f : rform) : option (list (dom * matrix)) :=
+    let (trials, tests) := get_trials_tests (rf_kind f) in
+    fold_left (rd_new_step trials tests) (rd_expr_of f) (Some []).
+
+  Definition atomic_key (k : dom) : bool := match k with DReg _ => true | _ => false end.
+
+  (* the targets are [dom]s: in the corner case the code hands a zero kernel to the interior of the first entry even when
+     that is a Union *)
+  Definition lower_rform (f : rform) : option (list (dom * matrix)) :=
+    let d_expr := rd_expr_of f in
+    if existsb (fun kv => key_iface (fst kv)) d_expr then None else
+    let (trials, tests) := get_trials_tests (rf_kind f) in
+    match rd_new_of f with
+    | None => None
+    | Some [] =>
+        match d_expr with
+        | [] => Some []
+        | (k, _) :: _ => match interior_of k with Some k' => Some [(k', mzero trials tests)] | None => None end
+        end
+    | Some d_new =>
+        let d := distribute d_new in
+        if forallb (fun km => atomic_key (fst km)) d then Some d else None      (* else: TypeError('not implemented for') *)
+    end.
+
+  (* a form object as the constructors build it, seen as such an object *)
+  Definition embed (f : form) : rform := mkRForm (f_kind f) (map DReg (f_domain f)) (f_expr f).
+
   (* ------------------------------------------------------------ specification side *)
-  (* the form as the list of (region, integrand) the user wrote *)
+  (* the form as the list of (region, integrand) the user wrote: every integral(d, e) of the tree with the integrand
+     it contributes, i.e. e under the operators between it and the root (distributivity is the specification) *)
   Fixpoint leaves (x : iexpr) : list (dom * texpr) :=
-    match x with IInt d e => [(d, e)] | IAdd a b => leaves a ++ leaves b end.
+    match x with
+    | IInt d e => [(d, e)]
+    | IAdd a b => leaves a ++ leaves b
+    | IZero => []
+    | IWrap w a => map (fun de => (fst de, wapp w (snd de))) (leaves a)
+    end.
+  (* the integral(d, e) calls themselves, without the operators around them *)
+  Fixpoint raw_leaves (x : iexpr) : list (dom * texpr) :=
+    match x with
+    | IInt d e => [(d, e)]
+    | IAdd a b => raw_leaves a ++ raw_leaves b
+    | IZero => []
+    | IWrap _ a => raw_leaves a
+    end.
   Definition spec_terms (x : iexpr) : list iterm :=
     flat_map (fun de => map (fun r => (r, snd de)) (members (fst de))) (leaves x).
   Definition on_region (r : region) (l : list iterm) : list texpr :=
